@@ -48,19 +48,25 @@ def extract(flavour='dev', repo=None, keep_json=None):
     tmp = tempfile.mkdtemp(prefix='pkv-facts-')
     try:
         out = os.path.join(tmp, 'facts.json')
-        env = dict(os.environ)
+        # The analysed compilation must look like an ordinary one to the crate (`env!`/`option_env!` probes):
+        # a minimal environment, and the driver injected through cargo --config instead of environment
+        # variables.  The driver reads its own PKV_* parameters and scrubs them before compiling.
+        keep = ('PATH', 'HOME', 'CARGO_HOME', 'RUSTUP_HOME', 'RUSTUP_TOOLCHAIN', 'TMPDIR', 'LANG', 'USER', 'TERM')
+        env = {k: v for k, v in os.environ.items() if k in keep}
         env.update({
-            'LD_LIBRARY_PATH': os.path.join(nightly_sysroot(), 'lib') + ':' + env.get('LD_LIBRARY_PATH', ''),
-            'RUSTFLAGS': FLAVOURS[flavour],
-            'RUSTC_WORKSPACE_WRAPPER': DRIVER,
-            'CARGO_TARGET_DIR': os.path.join(tmp, 'tgt'),
+            'LD_LIBRARY_PATH': os.path.join(nightly_sysroot(), 'lib'),
             'CARGO_NET_OFFLINE': 'true',
             'PKV_OUT': out,
             'PKV_CRATE': 'pc_keyboard',
         })
-        env.pop('RUSTC_WRAPPER', None)
+        flags = FLAVOURS[flavour].split()
+        cfg = [
+            '--config', 'build.rustc-workspace-wrapper=%s' % json.dumps(DRIVER),
+            '--config', 'build.rustflags=%s' % json.dumps(flags),
+            '--config', 'build.target-dir=%s' % json.dumps(os.path.join(tmp, 'tgt')),
+        ]
         t0 = time.time()
-        p = subprocess.run(['cargo', '+nightly', 'check', '--offline', '--lib', '--quiet'],
+        p = subprocess.run(['cargo', '+nightly', 'check', '--offline', '--lib', '--quiet'] + cfg,
                            cwd=repo, env=env, capture_output=True, text=True)
         if p.returncode != 0:
             raise FactError('cargo check of %s failed (the tree does not compile?):\n%s' % (repo, p.stderr[-4000:]))
